@@ -35,6 +35,14 @@ def inside_score(t, p):
     return worst
 
 
+def angdist_pt(a, b):
+    """angular distance between two (lon, lat) points"""
+    va = (math.cos(a[1]) * math.cos(a[0]), math.cos(a[1]) * math.sin(a[0]), math.sin(a[1]))
+    vb = (math.cos(b[1]) * math.cos(b[0]), math.cos(b[1]) * math.sin(b[0]), math.sin(b[1]))
+    chord = math.sqrt(sum((x - y) ** 2 for x, y in zip(va, vb)))
+    return 2 * math.asin(min(1.0, chord / 2))
+
+
 def main():
     h = Harness("C12")
     rng = h.rng
@@ -199,6 +207,26 @@ def main():
                 if not (abs(float(x) - j_) <= 2.0 and abs(float(y) - i_) <= 2.0):
                     h.violation("pixel:far", f"{nm} system, depth {d}, point (lat {lat!r}, lon {lon!r}): returned pixel position (x {float(x):.3f}, y {float(y):.3f}) in tile {tuple(t.pos)}, "
                                 f"but the nearest pixel centre is (x {int(j_)}, y {int(i_)})", input={"lat": lat, "lon": lon, "system": nm, "depth": d}, observed=[float(x), float(y), int(j_), int(i_)])
+                else:
+                    # the tile must be the one of the REQUESTED coordinate system that the tile lookup gives for the point …
+                    try:
+                        ref = toast.toast_tile_for_point(d, lat, lon, coordsys=cs)
+                        own = toast.create_single_tile(t.pos, coordsys=cs)
+                        cdiff = max(min(angdist_pt(a, b) for b in own.corners) for a in t.corners)
+                        if tuple(ref.pos) != tuple(t.pos) or cdiff > 1e-9:
+                            h.violation("pixel:tile", f"{nm} system, depth {d}, point (lat {lat!r}, lon {lon!r}): the pixel lookup answers in tile {tuple(t.pos)} with corners that are "
+                                        f"{'not ' if cdiff > 1e-9 else ''}those of that position in the {nm} system; the tile lookup gives {tuple(ref.pos)}",
+                                        input={"lat": lat, "lon": lon, "system": nm, "depth": d}, observed=[list(t.pos), list(ref.pos)])
+                        # … and the same question asked again with the longitude on other 2π branches (same process, same tile)
+                        for kk in (-1, 1, 0, 2):
+                            t2, x2, y2 = toast.toast_pixel_for_point(d, lat, lon + kk * TWOPI, coordsys=cs)
+                            if tuple(t2.pos) != tuple(t.pos) or abs(float(x2) - float(x)) > 1e-3 or abs(float(y2) - float(y)) > 1e-3:
+                                h.violation("pixel:period", f"{nm} system, depth {d}, point (lat {lat!r}, lon {lon!r}): asked again with lon + {kk}·2π the pixel lookup answers "
+                                            f"{tuple(t2.pos)} ({float(x2):.3f}, {float(y2):.3f}) instead of {tuple(t.pos)} ({float(x):.3f}, {float(y):.3f})",
+                                            input={"lat": lat, "lon": lon, "system": nm, "depth": d, "turns": kk})
+                                break
+                    except Exception as e:  # noqa
+                        h.violation("pixel:raise", f"{nm} system, depth {d}, point (lat {lat!r}, lon {lon!r}): repeated pixel lookup raised {type(e).__name__}: {e}", input={"lat": lat, "lon": lon, "system": nm, "depth": d})
                 h.case(("pixel", nm, d, round(lat, 12), round(lon, 12)))
                 h.count("pixel", kind.split("@")[0])
     return h.finish()
